@@ -262,10 +262,15 @@ CHECKS.update({
     "C16": (
         "history monitor: reused instance vs fresh instance after every call, "
         "over all ordered pairs/triples of representative inputs",
-        "Parsers (5 configurations): all ordered pairs and triples over 14 "
-        "representative texts (exhaustive for that set) plus random histories "
-        "up to 12 texts - result snapshot, errors attribute, exception type, "
-        "position attributes and message must equal a fresh instance's; "
+        "Parsers (5 configurations): all ordered pairs and triples over 20 "
+        "representative texts (exhaustive for that set; every second triple in "
+        "the quick tier), every (call kind, text) followed by (parse, text) for "
+        "the call kinds parse / pvl.loads(parser=) / pvl.load(parser=) / "
+        "pvl.loads(parser=, grammar=, decoder= of another dialect), plus random "
+        "histories up to 12 calls - result snapshot, errors attribute, exception "
+        "type, position attributes and message must equal those of a fresh "
+        "instance in a pristine process (forked before the worker processed "
+        "anything, one fork per reference); "
         "encoders (4 classes x 2 option sets) over pairs/triples of modules "
         "incl. refusals and PDS3 conversions; decoders over random decode_* "
         "histories; the long-lived instances in pvl_validate.dialects and "
